@@ -26,3 +26,5 @@ def run(prog, rep):
     _rc.run_fapl(prog, rep)
     from ..rules import r_key as _rk2
     _rk2.run_const_pure(prog, rep)
+    from ..rules import r_close as _rc2
+    _rc2.run_hid_owner(prog, rep)
